@@ -356,8 +356,17 @@ class Tensor:
     def to(self, *args, **kw):
         dt = kw.get('dtype', None)
         for x in args:
-            if _isinstance(x, dtype):
+            if _isinstance(x, dtype) or x in (_py_float, _py_complex, int, _py_bool):
                 dt = x
+        # torch accepts the python builtins float / complex / int / bool as dtypes
+        if dt is _py_float:
+            dt = float64
+        elif dt is _py_complex:
+            dt = complex128
+        elif dt is int:
+            dt = int64
+        elif dt is _py_bool:
+            dt = bool_
         if dt is None or dt is self.dtype:
             return self
         return _cast(self, dt)
